@@ -25,6 +25,9 @@ impl VPriorityQueue {
     pub fn peek(&self) -> Option<(u64, u64)> {
         self.0.peek().map(|(k, v)| (*k, *v))
     }
+    pub fn set_next_epoch(&mut self, epoch: u64) {
+        self.0.verif_set_next_epoch(epoch)
+    }
 }
 
 /// `util::indexed_priority_queue::IndexedPriorityQueue<u64, u64>`.
@@ -52,6 +55,9 @@ impl VIndexedPriorityQueue {
     }
     pub fn extract(&mut self, slab_idx: usize, epoch: u64) -> Option<(u64, u64)> {
         self.0.extract(InsertKey::from_raw_parts(slab_idx, epoch))
+    }
+    pub fn set_next_epoch(&mut self, epoch: u64) {
+        self.0.verif_set_next_epoch(epoch)
     }
     /// The heap array, the slab, the head of the free list and the next epoch.
     pub fn raw(&self) -> String {
